@@ -206,14 +206,64 @@ func runC10(c *Ctx) {
 			}
 		}
 	}
-	// chains: ordered pairs and triples x chunk scripts
-	nchains := c.pick(40, 500)
+	// files whose first records lean on nothing but the file itself (compressed
+	// headers or a local time before any timestamp of their own), to be chained
+	// behind files that are full of timestamps: nothing may carry over
+	var leaning, timed [][]byte
+	for v := 0; v < 4; v++ {
+		arch := byte(v % 2)
+		s := newStream(12+2*(v/2), v/2 == 1)
+		s.FileId(0, arch, 4)
+		if v != 1 {
+			s.Def(1, arch, 20, []FieldDef{{3, 1, 2}}, nil)
+			s.Compressed(1, 5+v, []byte{byte(60 + v)})
+			s.Compressed(1, 2, []byte{byte(70 + v)})
+		}
+		if v != 0 {
+			s.Def(2, arch, 34, []FieldDef{{5, 4, 0x86}, {1, 2, 0x84}}, nil) // activity: local_timestamp, num_sessions
+			s.Data(2, append(wire(u32le(0x39400000+uint32(v)), arch), wire(u16le(1), arch)...))
+		}
+		s.Def(3, arch, 20, []FieldDef{{253, 4, 0x86}, {3, 1, 2}}, nil)
+		s.Data(3, append(wire(u32le(0x39400100), arch), 80))
+		leaning = append(leaning, s.Bytes())
+	}
+	for v := 0; v < 2; v++ {
+		arch := byte(v)
+		s := newStream(12, false)
+		s.FileId(0, arch, 4)
+		s.Def(1, arch, 20, []FieldDef{{253, 4, 0x86}, {3, 1, 2}}, nil)
+		for r := 0; r < 3; r++ {
+			s.Data(1, append(wire(u32le(0x39300007+uint32(37*r)), arch), byte(90+r)))
+		}
+		timed = append(timed, s.Bytes())
+	}
+	for _, m := range pool {
+		if len(timed) < 5 && len(m) < 3000 {
+			timed = append(timed, m)
+		}
+	}
+	var fixedChains [][][]byte
+	for _, t := range timed {
+		for _, l := range leaning {
+			fixedChains = append(fixedChains, [][]byte{t, l})
+		}
+	}
+	fixedChains = append(fixedChains, [][]byte{leaning[0], leaning[1]}, [][]byte{timed[0], leaning[2], leaning[3]})
+	// chains: the fixed ones above, then ordered pairs and triples x chunk scripts
+	nchains := c.pick(40, 500) + len(fixedChains)
 	mismatchAlone := 0
 	for i := 0; i < nchains; i++ {
 		k := 2 + rng.Intn(2)
 		var chainMembers [][]byte
 		var all []byte
-		for j := 0; j < k; j++ {
+		if i < len(fixedChains) {
+			k = len(fixedChains[i])
+			for _, m := range fixedChains[i] {
+				chainMembers = append(chainMembers, m)
+				all = append(all, m...)
+			}
+		}
+		for j := 0; j < k && i >= len(fixedChains); j++ {
 			m := pool[rng.Intn(len(pool))]
 			if len(m) > 20000 {
 				j--
